@@ -106,6 +106,8 @@ pub enum Op {
     Prepare { slot: u8, sql: u8 },
     /// prepare_typed_cached(sql, types)
     PrepareTyped { slot: u8, sql: u8, types: u8 },
+    /// two overlapping prepare_typed_cached calls for the same key on the same client (join!)
+    PrepareJoin { slot: u8, sql: u8, types: u8 },
     /// execute a statement previously returned to this task (index modulo the list) on its client
     Use { slot: u8, stmt: u8 },
     CacheClear { slot: u8 },
@@ -133,6 +135,7 @@ impl Op {
             Op::Close => "close",
             Op::Prepare { .. } => "prepare",
             Op::PrepareTyped { .. } => "prepare_typed",
+            Op::PrepareJoin { .. } => "prepare_join",
             Op::Use { .. } => "use",
             Op::CacheClear { .. } => "cache_clear",
             Op::CacheRemove { .. } => "cache_remove",
@@ -237,7 +240,11 @@ pub fn generate(rng: &mut Rng, thorough: bool) -> Scenario {
                     7 => {
                         nstmts += 1;
                         let (sql, types) = gen_key(rng);
-                        Op::PrepareTyped { slot: hs, sql, types }
+                        if rng.below(100) < 20 {
+                            Op::PrepareJoin { slot: hs, sql, types }
+                        } else {
+                            Op::PrepareTyped { slot: hs, sql, types }
+                        }
                     }
                     8 => Op::Use { slot: hs, stmt: rng.below(nstmts.max(1) as usize) as u8 },
                     9 => Op::CacheClear { slot: hs },
@@ -401,6 +408,7 @@ pub fn shrink_candidates(sc: &Scenario) -> Vec<Scenario> {
                 Op::Sleep { ms } if *ms > 1 => Some(Op::Yield { n: 1 }),
                 Op::Kill { conn, settle } if *settle > 0 => Some(Op::Kill { conn: *conn, settle: 0 }),
                 Op::PrepareTyped { slot, sql, types: 0 } => Some(Op::Prepare { slot: *slot, sql: *sql }),
+                Op::PrepareJoin { slot, sql, types } => Some(Op::PrepareTyped { slot: *slot, sql: *sql, types: *types }),
                 Op::Get { slot } if *slot > 0 => Some(Op::Get { slot: 0 }),
                 _ => None,
             };
